@@ -1,5 +1,6 @@
 import WebPkg.Proofs.Variants
 import WebPkg.Proofs.BundleWF
+import WebPkg.Proofs.BundleRoundTrip
 /-
   C03 — Web bundle write → read round trip preserves every exchange.
   This file currently holds the Variants (b1) ordering laws and the writer-side accounting; the full
@@ -38,5 +39,33 @@ theorem offsets_accounting (es : List Exch) (n : Nat) (rs0 : List Bytes) (acc ac
       acc'.map (fun e => (e.offset, e.length)) = locs (Cbor.encodeHead 4 n).length (rs0 ++ rs) := by
   obtain ⟨rs, new, h1, _, _, h4, h5, _, h7, _, _, h10⟩ := addExchanges_spec es n rs0 acc acc' buf' h hacc
   exact ⟨rs, new, h1, h4, h5, h7, h10⟩
+
+
+/-- T (write → read round trip, both versions, optional primary / manifest / signatures sections, one
+    representation per URL): reading back what the writer produced yields the same version, primary URL,
+    manifest URL and signatures section, and exactly one exchange per written exchange (a permutation `σ`
+    of the input: the index is a CBOR map sorted by URL), each with the same URL, status and body and the
+    header fields with names case-folded and repeated values comma-joined. `RDomG` lists what the reader
+    checks and the writer does not (URL shape, 3-digit status, ASCII headers, parseable certificates).
+    `out.length < 2^63`: a Go slice length; a 2^63-byte body is refused by the CBOR decoder. -/
+theorem read_write (url : BUrlFacts) (parseOk : Bytes → Bool) (b : Bundle) (out : Bytes)
+    (hd : RDomG url parseOk b) (hw : write b = .ok (.ok out)) (hlen : out.length < 2 ^ 63) :
+    ∃ b', read url parseOk out = .ok b' ∧ b'.version = b.version ∧ b'.primaryURL = b.primaryURL ∧
+      b'.manifestURL = b.manifestURL ∧ b'.signatures = b.signatures ∧
+      ∃ σ : List Exch, σ.Perm b.exchanges ∧ b'.exchanges.length = σ.length ∧
+        b'.exchanges.map (·.url) = σ.map (·.url) ∧
+        ∀ i (hi : i < σ.length), ∃ e', b'.exchanges[i]? = some e' ∧ e'.url = σ[i].url ∧
+          e'.resp.status = σ[i].resp.status ∧ e'.resp.body = σ[i].resp.body ∧
+          e'.resp.headers.Perm (σ[i].resp.headers.map
+            fun kv => (Http.canonicalKey (Http.lowerAscii kv.1), [Http.joinComma kv.2])) :=
+  Bundle.read_write url parseOk b out hd hw hlen
+
+/-- the b2 special case needs no distinctness hypothesis (the writer refuses duplicate URLs) -/
+theorem read_write_b2 (url : BUrlFacts) (parseOk : Bytes → Bool) (b : Bundle) (out : Bytes) (hv : b.version = .b2)
+    (hd : RDom url b) (hw : write b = .ok (.ok out)) (hlen : out.length < 2 ^ 63) :
+    ∃ b', read url parseOk out = .ok b' ∧ b'.version = .b2 ∧ b'.primaryURL = b.primaryURL ∧ b'.signatures = none ∧
+      b'.exchanges.length = b.exchanges.length := by
+  obtain ⟨b', h1, h2, h3, _, _, h6, σ, hσ, hl, _⟩ := Bundle.read_write_b2 url parseOk b out hv hd hw hlen
+  exact ⟨b', h1, h2, h3, h6, by rw [hl, hσ.length_eq]⟩
 
 end WebPkg.C03
